@@ -235,7 +235,10 @@ def pk(f):
     """projection over the pickle list of a compile outcome"""
     def g(o):
         if "pickles" in o:
-            return {"pickles": [f(p) for p in o["pickles"]]}
+            r = {"pickles": [f(p) for p in o["pickles"]]}
+            if o.get("second_compile_differs"):
+                r["second_compile_of_the_same_document_differs"] = True
+            return r
         return {k: v for k, v in o.items() if k in ("crash", "errors")}
     return g
 
@@ -250,7 +253,7 @@ proj_pickle_ids = pk(lambda p: [[s["id"] for s in p["steps"]], p["id"], p["astNo
 
 
 def pickles_all(o):
-    return {k: v for k, v in o.items() if k in ("pickles", "crash", "errors", "ids", "mutated_input")}
+    return {k: v for k, v in o.items() if k in ("pickles", "crash", "errors", "ids", "mutated_input", "second_compile_differs")}
 
 
 # ------------------------------------------------------------------ single-case re-evaluation (shrinking / replay)
@@ -422,6 +425,9 @@ def run_C01(ctx: Ctx) -> Result:
                                      lambda o: {k: v for k, v in o.items() if k == "crash"}))
     res.merge(streams.events_stream(rng, ctx.n(150, 1500),
                                     project=lambda r: [[sorted(e.keys()) for e in src] for src in r]))
+    crash_only = lambda o: {k: v for k, v in o.items() if k == "crash"}   # noqa: E731
+    res.merge(streams.genast_stream(rng, ctx.n(800, 8000), crash_only))
+    res.merge(streams.pickles_stream([gens.permuted_examples(rng) for _ in range(ctx.n(300, 3000))], crash_only))
     return res
 
 
@@ -634,7 +640,7 @@ def run_C05(ctx: Ctx) -> Result:
                                                               "column": o["token"]["column"], "type": o["token"]["type"]}))
     # language header spellings
     hdr = []
-    for name in names[:: ctx.n(4, 1)] + ["xx", "EN", "en-", "no-such"]:
+    for name in names[:: ctx.n(4, 1)] + ["xx", "EN", "en-", "no-such", "fr2", "v1", "français", "en_US", "é", "fr é", "zh-CN", "en!", "1"]:
         for form in ["#language:%s", "# language: %s", "  #  language  :  %s  ", "#language : %s x", "# Language: %s",
                      "#language:%s\r", " # language:　%s"]:
             hdr.append(("Language", "en", "en", 0, None, (form % name) + "\n"))
@@ -657,6 +663,26 @@ def run_C05(ctx: Ctx) -> Result:
         for dflt, hdr in ((a, b), (b, a)):
             doc = gens.DocGen(ctx.rng, hdr).document()
             res.merge(streams.parse_stream([doc], proj_keywords, modes=(False,), dialects=(dflt,)))
+    # long-lived matchers of different dialects used alternately (no table may be shared between instances)
+    alive = {n_: impl.TokenMatcher(n_) for n_ in ctx.rng.sample(names, ctx.n(10, 40)) + ["en", "fr"]}
+    alt = []
+    for _ in range(ctx.n(400, 4000)):
+        n_ = ctx.rng.choice(list(alive))
+        role = ctx.rng.choice(step_roles)
+        kw = ctx.rng.choice(D[n_][role])
+        alt.append((n_, kw + "text\n"))
+    outs_ = driver.batch([driver.request("match", impl.KINDS.index("StepLine"), n_, n_, 0, "", l_) for n_, l_ in alt])
+    for (n_, l_), mo in zip(alt, outs_):
+        tok = impl.Token(impl.GherkinLine(l_, 1), {"line": 1})
+        r_ = alive[n_].match_StepLine(tok)
+        got = {"res": "matched" if r_ else "no", "keyword": getattr(tok, "matched_keyword", None),
+               "ktype": getattr(tok, "matched_keyword_type", None)}
+        want = {"res": mo["res"], "keyword": mo["token"]["keyword"], "ktype": mo["token"]["keywordType"]}
+        res.note({"dialect": n_, "line": l_}, True)
+        if got != want:
+            res.fail("history", {"dialect": n_, "line": l_, "note": "long-lived matchers of several dialects used alternately"},
+                     got, want, "step recognition differs when other TokenMatcher instances exist: " + str(first_diff(got, want)))
+            break
     # one TokenMatcher instance through a sequence of documents with and without headers
     seq = []
     for name in ctx.rng.sample(names, ctx.n(12, 60)):
@@ -707,6 +733,9 @@ def extra_C09(ctx: Ctx) -> Result:
     for v in ["\\", "\\1", "\\g<0>", "$1", "<a>", "&", "\\\\", "\\n", ""]:
         cases.append(("x <a> y <a> <b>", [("a", v), ("b", "<a>")]))
         cases.append(("<a><b>", [("b", v), ("a", "<b>")]))
+    for n_ in (7, 8, 9, 10, 17, 40):
+        cases.append(("<a> " * n_, [("a", "v")]))
+        cases.append(("<a><b>" * n_, [("a", "x"), ("b", "<a>")]))
     return streams.interp_stream(cases)
 
 
@@ -743,7 +772,7 @@ def extra_C10(ctx: Ctx) -> Result:
             continue
         for role in ("given", "when", "then", "and", "but"):
             for kw in spec[role]:
-                if any(o != kw and kw.startswith(o) for o in steps):
+                if any(o != kw and kw.startswith(o) for o in steps[: steps.index(kw)]):
                     continue        # shadowed by an earlier listed keyword (C05_step_first_prefix)
                 src = f"# language: {name}\n{spec['feature'][0]}: f\n  {spec['scenario'][0]}: s\n    {first}a\n    {kw}b\n"
                 o = impl.pickles(src)
@@ -1589,7 +1618,7 @@ PROPS = {
                 rule="all ordered pairs (thorough: triples) of 12 state-perturbing documents through one Parser+TokenMatcher, sampled longer histories, random schedules of 2–3 concurrent parses gated at TokenScanner.read; non-trivial = any"),
     "C16": dict(modules=["C16"], run=run_C16, rule=GEN_RULE + "× {CRLF, final newline, trailing blanks, indentation, blank line, comment line} at sampled admissible positions; file loading; non-trivial = any"),
     "C17": dict(modules=["C17"], run=run_C17, rule="sequences of 1–3 sources × 8 option combinations through one GherkinEvents; non-trivial = at least one envelope"),
-    "C18": dict(modules=["C18", "C18Order"], run=run_C18, translators=["parser_table"], exhaustive=True,
+    "C18": dict(modules=["C18", "C18Order", "C18Pure"], run=run_C18, translators=["parser_table"], exhaustive=True,
                 rule="all tag/comment/blank runs ≤ L before Examples/Scenario/Rule/unexpected lines as real text, sampled longer arrangements, corpus token listings; non-trivial = any"),
     "C19": dict(modules=["C19"], run=run_C19, translators=["dialects"], exhaustive=True,
                 rule="complete enumeration dialect × keyword × header depth 0–7 / bullet × indentation through the real Markdown matcher; table indentation 0–8; tag lines; non-trivial = matched"),
